@@ -33,7 +33,7 @@ RULE = ("Prefix history (fixed ones in the quick tier: 3 appends / appends+delet
 ASSUMPTIONS = ["process death with a surviving OS (power loss is C16); kernel flocks die with the process; an S3 lock object lapses after its lease",
                "the crash state of the local backend is the directory tree at the instant of the step (files are copied, not hard-linked)"]
 
-OPS = ["create", "append", "multi", "delete", "expire", "delete_snapshot", "gc"]
+OPS = ["create", "append", "multi", "delete", "replace", "expire", "delete_snapshot", "gc"]
 PREFIXES = {
     "A": [{"op": "append", "n": 2}, {"op": "append", "n": 1}, {"op": "append", "n": 1}],
     "B": [{"op": "append", "n": 1}, {"op": "append", "n": 2}, {"op": "delete_files", "pick": [0], "slash": True, "ghost": False}, {"op": "failed_commit"},
@@ -97,7 +97,7 @@ def do_op(t, op, pre, world):
     if op == "gc":
         t.garbage_collect(grace_period_ms=0)
     else:
-        style = {"append": "records", "multi": "with_commit", "delete": "with_commit", "expire": "with_commit", "delete_snapshot": "direct"}[op]
+        style = {"append": "records", "multi": "with_commit", "delete": "with_commit", "replace": "with_commit", "expire": "with_commit", "delete_snapshot": "direct"}[op]
         c04.do_op(t, {"op": op, "style": style}, pre)
 
 
